@@ -198,6 +198,22 @@ def gen_busy(rng, idx, k=None):
     return Case(lines, {"kind": "busy"})
 
 
+def gen_burst_then_timers(rng, idx):
+    """>= 1024 consecutive MIN_TD cycles while lagging past end_time, THEN ordinary timers that are due before
+    end_time: the drain cut-off is about the cycle being computed, not about the cycles already run, so the
+    timers must still be delivered (late)"""
+    n = rng.choice([1023, 1024, 1025, 1030, 1100])
+    gaps = [rng.choice([2, 3, 7, 40, 150, 300]) for _ in range(rng.randint(1, 3))]
+    span = n + sum(gaps) + rng.choice([1, 5, 60])
+    wall0 = START + rng.choice([span, span + 50, span // 2, n + 1])
+    cost = rng.choice([1, 1, 2])
+    lines = ["case %d" % idx, "cfg %d %d %d %d %d" % (START, START + span, 100, wall0, cost)]
+    lines.append("node 1 " + " ; ".join(["r0"] + ["r1"] * n + ["r%d" % g for g in gaps] + ["-"]))
+    lines.append("events " + " ".join(_events(rng, span, rng.randint(0, 2))))
+    lines.append("run")
+    return Case(lines, {"kind": "burst-timers"})
+
+
 def streams(rng, tier, seed):
     q = tier == "quick"
     cases = []
@@ -207,6 +223,8 @@ def streams(rng, tier, seed):
             cases.append(gen(rng, idx)); idx += 1
     for k in range(14 if q else 200):
         cases.append(gen_busy(rng, idx, k)); idx += 1
+    for k in range(10 if q else 120):
+        cases.append(gen_burst_then_timers(rng, idx)); idx += 1
     cdir = os.path.join(os.path.dirname(os.path.dirname(os.path.dirname(os.path.abspath(__file__)))), "corpus", "C17")
     corpus = []
     if os.path.isdir(cdir):
@@ -439,6 +457,11 @@ def _analyse(case, out):
         consecutive = len(tail) >= 1025 and all(b == a + 1 for a, b in zip(tail, tail[1:]))
         if not consecutive or final_wall < end:
             bad.append("[drop] run cut short without 1024 consecutive MIN_TD cycles past end_time (wall %d)" % final_wall)
+        elif left and cyc and min(left) != cyc[-1][0] + 1:
+            # only a run that KEEPS re-scheduling every smallest step may be cut: the wake-up that was dropped
+            # here is an ordinary later timer, due before end_time
+            bad.append("[drop] run cut short although the next pending wake-up %d (< end %d) is not a smallest-step "
+                       "re-schedule after cycle %d" % (min(left), end, cyc[-1][0]))
         feats.add("cutoff")
     elif reason == "stop":
         if not stop_seen:
